@@ -1000,7 +1000,11 @@ let hist_case (f : fmt) (input : string) (obs0 : string) : verdict =
       let depth = match Str.bounded_split_delim (Str.regexp_string " D ") obs 2 with [ _; d ] -> " D " ^ d | _ -> "" in
       let oracle = ref [] in
       (match List.filter (fun x -> starts_with x "C17 ") flags with
-       | x :: _ -> oracle := ("C17", "reused parser differs from a fresh one on the probe document: " ^ x) :: !oracle
+       | x :: _ ->
+           oracle := ("C17", "reused parser differs from a fresh one on the probe document: " ^ x) :: !oracle;
+           (* the probe written in pieces must give what the whole-buffer parse of a new parser gives *)
+           if String.length mode > 0 && mode.[String.length mode - 1] = 'W' then
+             oracle := ("C02", "a document written in pieces to a parser that has parsed before differs from its whole-buffer parse: " ^ x) :: !oracle
        | [] -> ());
       { model = model ^ depth; oracle = !oracle }
   | _ -> failwith "hist: bad input"
@@ -1510,12 +1514,14 @@ let userfold_case (_input : string) (obs0 : string) : verdict =
   { model = obs; oracle = !oracle }
 
 (* ---- user unfolders, Write after an error, very deep nesting: direct oracles, no model ---- *)
-let userunf_case (_input : string) (obs0 : string) : verdict =
+let userunf_case (input : string) (obs0 : string) : verdict =
   let obs, _ = split_flags_all obs0 in
+  let c = match words input with c :: _ -> (try int_of_string c with _ -> -1) | [] -> -1 in
+  let msg = "a target with a user unfolder (Unfolders / UnfoldState) was not filled as expected: " ^ obs in
   let oracle = if obs = "U ok" then [] else
-      [ ("C13", "a target with a user unfolder (Unfolders / UnfoldState) was not filled as expected: " ^ obs);
-        ("C15", "a target with a user unfolder (Unfolders / UnfoldState) was not filled as expected: " ^ obs);
-        ("C14", "a target with a user unfolder (Unfolders / UnfoldState) was not filled as expected: " ^ obs) ] in
+      [ ("C13", msg); ("C15", msg); ("C14", msg) ]
+      @ (if c = 12 || c = 13 then [ ("C10", "strings or keys delivered by reference to a user unfolder do not have the effect of the basic events: " ^ obs) ] else [])
+      @ (if c >= 14 && c <= 17 then [ ("C17", "an Unfolder used again does not build what a new one builds (user unfolders): " ^ obs) ] else []) in
   { model = obs; oracle }
 let wafter_case (_f : fmt) (_input : string) (obs0 : string) : verdict =
   let obs, _ = split_flags_all obs0 in
@@ -1526,6 +1532,32 @@ let wafter_case (_f : fmt) (_input : string) (obs0 : string) : verdict =
 let deep_case (_f : fmt) (_input : string) (obs0 : string) : verdict =
   let obs, _ = split_flags_all obs0 in
   { model = obs; oracle = (if obs = "D ok" then [] else [ ("C03", "a document nested as deep as it is long was not parsed: " ^ obs) ]) }
+
+(* ---- C10 / C01: typed arrays of 2^16 elements and more (no model: the extracted encoders are quadratic there) ---- *)
+let big_case (_f : fmt) (_input : string) (obs0 : string) : verdict =
+  let obs, _ = split_flags_all obs0 in
+  let oracle =
+    match words obs with
+    | [ "A"; _; da; ea; ta; ra; "B"; _; db; eb; tb; rb ] ->
+        (if ea <> "-" || eb <> "-" then [ ("C10", "a long typed array was refused: " ^ ea ^ " / " ^ eb) ] else [])
+        @ (if da <> db then [ ("C10", "consumer left in a different state: depth " ^ da ^ " vs " ^ db) ] else [])
+        @ (if ta <> tb then [ ("C10", "what is written after a long typed array differs between the extended event and its expansion") ] else [])
+        @ (if ra <> "rtok" then [ ("C10", "a long typed array written through the extended event does not decode to the same value: " ^ ra); ("C01", "a long typed array does not decode to the value that was encoded: " ^ ra) ] else [])
+        @ (if rb <> "rtok" then [ ("C01", "a long array written through the basic events does not decode to the value that was encoded: " ^ rb) ] else [])
+    | _ -> [ ("C10", "encoder crashed on a long typed array: " ^ obs); ("C01", "encoder crashed on a long typed array: " ^ obs) ] in
+  { model = obs; oracle }
+
+(* ---- C09 / C04-C06 / C02: very long keys and strings (no model: the extracted parsers are too slow on megabytes) ---- *)
+let bigstr_case (f : fmt) (input : string) (obs0 : string) : verdict =
+  let obs, _ = split_flags_all obs0 in
+  let own = match f.fname with "json" -> "C04" | "cbor" -> "C05" | _ -> "C06" in
+  let whole = match words input with [ _; _; _; "0" ] -> true | _ -> false in
+  let oracle =
+    if obs = "S ok" then []
+    else
+      let msg = "a document with a very long key or string was not reported as written: " ^ obs in
+      [ (own, msg); ("C09", msg); ("C03", msg) ] @ (if whole then [] else [ ("C02", msg) ]) in
+  { model = obs; oracle }
 
 (* ---- C11: self-referential types (no model: the Go side compares original and copy) ---- *)
 let rec_case (_input : string) (obs0 : string) : verdict =
@@ -1568,7 +1600,7 @@ let () = all_fmts := fmts
 let fmt_handlers =
   ("xc", xc_case) :: ("adapt", adapt_case) ::
   List.concat_map (fun f -> [ (f.fname ^ "enc", enc_case f); (f.fname ^ "parse", parse_case f); (f.fname ^ "dec", dec_case f);
-                              ("rt" ^ f.fname, rt_case f); ("x10" ^ f.fname, x10_case f); ("hist" ^ f.fname, hist_case f); ("wafter" ^ f.fname, wafter_case f); ("deep" ^ f.fname, deep_case f); ("cuts" ^ f.fname, cuts_case f); ("scut" ^ f.fname, scut_case f) ]) fmts
+                              ("rt" ^ f.fname, rt_case f); ("x10" ^ f.fname, x10_case f); ("hist" ^ f.fname, hist_case f); ("wafter" ^ f.fname, wafter_case f); ("deep" ^ f.fname, deep_case f); ("big" ^ f.fname, big_case f); ("bigstr" ^ f.fname, bigstr_case f); ("cuts" ^ f.fname, cuts_case f); ("scut" ^ f.fname, scut_case f) ]) fmts
 
 (* a crash or hang is compared as such: what was delivered before is not part of the observation *)
 let canon_obs (o : string) : string =
